@@ -10,7 +10,7 @@ import eng_mt
 
 
 def scen_check(module, level, rule, min_obs_quick=None, min_obs_thorough=None, config="asan",
-               assumptions=None, exhaustive_thorough=False, exhaustive_quick=False):
+               assumptions=None, exhaustive_thorough=False, exhaustive_quick=False, extra=None):
     """module: engine module name, or a list of (module, config) pairs whose results are merged."""
     mods = module if isinstance(module, list) else [(module, config)]
 
@@ -45,11 +45,56 @@ def scen_check(module, level, rule, min_obs_quick=None, min_obs_thorough=None, c
                         total["obs"].setdefault(k, set()).update(val)
                     else:
                         total["obs"][k] = total["obs"].get(k, 0) + val
+        if extra is not None and not replay:
+            ev, eo, en = extra(prop, tier, seed)
+            viols.extend(ev)
+            total["evaluations"] += en
+            total["nontrivial_sigs"].update("x%d" % i for i in range(en))
+            for k, val in eo.items():
+                total["obs"][k] = total["obs"].get(k, 0) + val
         mo = None if replay else (min_obs_quick if tier == "quick" else (min_obs_thorough or min_obs_quick))
         return core.conclude(prop, tier, seed, level, total, viols, t0, rule, min_obs=mo,
                              assumptions=assumptions,
                              exhaustive=(exhaustive_thorough and tier == "thorough") or exhaustive_quick)
     return {"run": run, "level": level, "module": module}
+
+
+def cxxio_pass(prop, tier, seed):
+    """C16, C++ half: reproc::drain / reproc::run templates against the real library (src/cxxio.cpp)."""
+    import os
+    import shutil
+    import subprocess
+    from concurrent.futures import ThreadPoolExecutor
+    vchild = build.build_vchild()
+    binp = build.build_cxxio("asan")
+    env = dict(os.environ)
+    env.update(core.SAN_ENV)
+    nw = core.NWORKERS
+    root = os.path.join(core.BUILD, "run", "cxxio.%d" % os.getpid())
+    os.makedirs(root, exist_ok=True)
+
+    def work(w):
+        p = subprocess.run([binp, vchild, os.path.join(root, "w%d" % w), str(w), str(nw), tier, str(seed)],
+                           stdout=subprocess.PIPE, stderr=subprocess.PIPE, env=env, text=True, errors="replace")
+        return p.returncode, p.stdout, p.stderr
+    with ThreadPoolExecutor(nw) as ex:
+        outs = list(ex.map(work, range(nw)))
+    shutil.rmtree(root, ignore_errors=True)
+    names = ["cxx_cases", "cxx_violations", "cxx_sink_calls", "cxx_bytes", "cxx_runs", "cxx_stops", "cxx_string_sinks", "cxx_timeouts"]
+    obs = {n: 0 for n in names}
+    viols = []
+    for rc, out, err in outs:
+        if rc not in (0, 1):
+            kind = "asan" if "AddressSanitizer" in err else "ubsan" if "runtime error" in err else "crash"
+            viols.append((prop, "%s/cxxio/%s" % (prop, kind), "C++ drain harness died rc=%d: %s" % (rc, err[-500:]), {"seed": seed, "module": "cxxio"}, [err[-2000:]]))
+        for line in out.splitlines():
+            f = line.split("\t")
+            if f[0] == "V" and len(f) >= 4:
+                viols.append((prop, "%s/cxxio/%s" % (prop, f[1]), "%s [%s]" % (f[3], f[2]), {"seed": seed, "module": "cxxio", "case": f[2]}, [line[:400]]))
+            elif f[0] == "S":
+                for n, v in zip(names, [int(x) for x in f[1:]]):
+                    obs[n] += v
+    return viols, obs, obs["cxx_cases"]
 
 
 KERNEL_TRUST = [
@@ -120,9 +165,14 @@ CHECKS = {
         "reproc_drain / reproc_run_ex over children writing 0..1 MB in 1-5 chunks to both streams, closing streams before "
         "exiting, with err in {pipe, stdout, parent, discard}; recording sinks (every call logged and content-verified), "
         "sinks failing at call k with positive/negative results, string sinks with/without prefix, realloc failing at "
-        "growth step k, deadlines before/during/after the output, second drain on closed streams; non-trivial = a drain/run was compared",
+        "growth step k, deadlines before/during/after the output, second drain on closed streams; plus a C++ pass: reproc::drain / "
+        "reproc::run (drain.hpp, run.hpp) with recording lambdas, failing sinks, sink::string / thread_safe::string / ostream / "
+        "discard against free-running children on the real library; non-trivial = a drain/run was compared",
         {"drains": 1500, "sink_calls": 10000, "closing_calls": 1500, "sink_failures": 100, "string_sinks": 150,
-         "realloc_faults_fired": 50, "timeouts": 50, "runs": 300}, assumptions=KERNEL_TRUST),
+         "realloc_faults_fired": 50, "timeouts": 50, "runs": 300, "cxx_cases": 400, "cxx_sink_calls": 1500,
+         "cxx_runs": 100, "cxx_string_sinks": 50, "cxx_timeouts": 50},
+        assumptions=KERNEL_TRUST + ["the C++ pass runs free-running helper children in real time: only time-independent facts are asserted (plus 'an expired deadline with open streams yields timed_out')"],
+        extra=cxxio_pass),
     "C17": scen_check(
         "eng_io", "exploration",
         "reads/writes on every pipe state (empty, partly filled, full, far side closed) with an idle, slow or never-reading "
@@ -237,7 +287,7 @@ MANIFEST_TEXT = {
             "protocol (two initial calls, right sink and tag, one closing call per closing piped stream, stop at first non-zero "
             "result, ETIMEDOUT at the deadline, 0 only with both streams closed); string sinks are checked for exact content, "
             "also with a prefix and when realloc fails at step k; reproc_run_ex must return the kernel's status.",
-            "C side only (the C++ templates are exercised by C19's engine); positive sink results are not errors for run",
+            "positive sink results are not errors for run; the C++ pass is real-time, so it asserts no timing",
             "DESIGN.md 3/C16"),
     "C17": ("io", "runtime monitor: virtual-time advance inside read/write at the libc boundary; O_NONBLOCK state of the descriptor",
             "Whether a call waited is observed directly: the interposed read/write/poll record when virtual time had to advance "
